@@ -173,6 +173,58 @@ add(
     "DESIGN.md section 4, C06",
 )
 
+add(
+    "C07",
+    "export-boundary monitor (H10) + in-situ layout monitor (H1: stub positions, layers) + independent SVG/TikZ parsers; geometry oracle over the caller's original data",
+    "Seeded timeline specs are exported by both real back-ends from fresh deep copies; each document is parsed into a common Picture and judged "
+    "against the caller's ORIGINAL data: counts, box signatures (size incl. padding, verbatim text), dots = one increasing affine map of the "
+    "time as supplied (exact rational reference from the domain the scale reports, which must cover the data / equal an explicit domain), "
+    "axis line and main shift, tick texts consistent with the value at their position, each link starting at its datum's dot, continuous, "
+    "passing through the positions the H1 hook recorded for that datum's stubs layer by layer, strictly outward, ending on the middle of the "
+    "axis-facing edge of its own box. Held = on the documents exported.",
+    "Trusted: oracles/picture.py parsers (unparseable => inconclusive, never a pass), oracles/export.py, texinv read-back for TikZ texts. "
+    "Explicit widths only (no LaTeX); TikZ judged as text. In left/right either padding-pair assignment/orientation is accepted.",
+    "DESIGN.md section 4, C07",
+)
+add(
+    "C08",
+    "export-boundary monitor + parsers; rectangle-geometry oracle (pairwise disjointness, side/distance, layer stacking with layers from the H1 hook)",
+    "Dense seeded specs (clusters, ties, half-integer widths, absent lower bound) with label spacing >= 3 and layer gap >= 1 are exported by both "
+    "back-ends; the parsed rectangles must be pairwise disjoint, lie on the side of direction at distance >= layerGap-1 and farther layers must "
+    "lie wholly beyond nearer ones. No tolerance beyond the statement. Held = on the documents exported.",
+    "Trusted: parsers, oracles/export.judge_c08. Explicit widths only.",
+    "DESIGN.md section 4, C08",
+)
+add(
+    "C09",
+    "differential monitoring of the two real emitters on deep-copied identical specs; per-datum identification of boxes/links, field-by-field Picture comparison",
+    "For every seeded spec (all colour option forms, border on/off, all directions, both scale kinds) the SVG and the TikZ export are parsed and "
+    "compared: axis (+-1), box origins/sizes (exact strings), link curves (exact strings), dots (1e-6) and their colours, ticks (<1, equal texts), "
+    "per-datum fill/border/text/link colours as RGB triples (TikZ through the macro each element names), label texts. Held = on the pairs exported.",
+    "Trusted: parsers and oracles/export.judge_c09. Margins excluded as the statement says.",
+    "DESIGN.md section 4, C09",
+)
+add(
+    "C10",
+    "multi-instance history workload in fresh processes; offline byte comparison with single-instance fresh-process references; H10 option-state digests for non-interference",
+    "Seeded interleavings of construct/export over 2-4 timelines (SVG/TikZ mixed, most relying on the default scale and default engine options) "
+    "run in a fresh process each; every exported document must be byte-identical to the document a fresh process exports for that spec alone, "
+    "repeated exports identical, and around every operation the monitor digests the option state (scale domain/range, nested dicts, items) "
+    "of every OTHER live timeline, which must not change. Held = on the histories played.",
+    "Trusted: process isolation of the reference runs, the digest in vmon/mon_export.py. datetime.time inputs excluded.",
+    "DESIGN.md section 4, C10",
+)
+add(
+    "C11",
+    "totality workload at the export boundary (H10 outcome recording) + H3 step budget + parsers; known finding keyed by exception mechanism",
+    "A deterministic ladder of documented-input strata (single datum, same time, options omitted/empty/partial, spans 1 ms..300 y incl. 7-9 ms, "
+    "windows over every month end, leap days, year ends, all directions/algorithms, 100-1000 labels in clusters <= 200) plus the general "
+    "generator is constructed and exported by both back-ends; any exception, unparseable document or misplaced dot of a degenerate domain is a "
+    "violation. The recursion-limit finding for clusters > ~240 is listed and its pinned witness replayed every run. Held = on the inputs tried.",
+    "Trusted: parsers. Explicit widths only. Known finding classifier: RecursionError whose innermost repo frames are vpsc traversals and a layer with > 200 variables.",
+    "DESIGN.md section 4, C11",
+)
+
 NOT_YET = {}
 
 
